@@ -324,8 +324,48 @@ func (e *Exec) call(fn *ssa.Function, fc *FuncContract, st *State, x *ssa.Call) 
 		} else if prm, ok := x.Call.Value.(*ssa.Parameter); ok {
 			e.recordRet(st, prm.Name(), x)
 		}
+		e.assumeAfter(st, &x.Call)
 	}
 	return cont, ex
+}
+
+
+// assumeAfter: `assume_after <callee>: expr` - an assumption of the function under contract about
+// what that call returned / left behind (listed with the assumptions), over the locals, the
+// parameters and the count_calls ghosts (<callee>_retK), evaluated once those are recorded.
+func (e *Exec) assumeAfter(st *State, cc *ssa.CallCommon) {
+	if e.fc == nil || e.curFn != e.fn || len(e.fc.Lists["assume_after"]) == 0 {
+		return
+	}
+	var names []string
+	if cc.IsInvoke() {
+		names = append(names, cc.Method.Name(), qualName(cc))
+	} else if cal := cc.StaticCallee(); cal != nil {
+		names = append(names, cal.Name(), staticQualName(cal))
+	}
+	for _, cl := range e.fc.Lists["assume_after"] {
+		j := strings.Index(cl.Expr, ":")
+		if j < 0 {
+			continue
+		}
+		hit := false
+		for _, n := range names {
+			if n != "" && n == strings.TrimSpace(cl.Expr[:j]) {
+				hit = true
+			}
+		}
+		if !hit {
+			continue
+		}
+		c := e.specEnvLocals(st)
+		t, err := c.evalBool(strings.TrimSpace(cl.Expr[j+1:]))
+		if err != nil {
+			e.note("CONTRACT-ERROR assume_after: %v", err)
+			continue
+		}
+		e.assume(st, t)
+		e.libUsed["assume-after:"+strings.TrimSpace(cl.Expr)] = true
+	}
 }
 
 func (e *Exec) setResult(st *State, dst ssa.Value, v Val) {
@@ -963,6 +1003,11 @@ func (e *Exec) builtin(st *State, b *ssa.Builtin, cc *ssa.CallCommon, args []Val
 	case "close":
 		if e.eng.tmClose != nil {
 			e.eng.tmClose(e, st, cc, args)
+		}
+		if e.curFn == e.fn && len(args) == 1 && args[0].S != "" {
+			cur := e.closeCount(st)
+			st.mem["ghost|close_count"] = e.sc.define("g.close_count", e.memSort["ghost|close_count"],
+				fmt.Sprintf("(store %s %s %s)", cur, args[0].S, e.add(fmt.Sprintf("(select %s %s)", cur, args[0].S), e.sc.idxLit(1))))
 		}
 	case "recover":
 		if e.recvDepth > 0 && e.recoverVal != "" {
